@@ -57,47 +57,41 @@ theorem setF_same {α} (f : Nat → Option α) (k : Nat) (v : Option α) : setF 
 theorem setF_other {α} (f : Nat → Option α) (k k' : Nat) (v : Option α) (h : k' ≠ k) : setF f k v k' = f k' := by
   simp [setF, h]
 
-/-- **Publish keeps and only adds** (repaired code). Publishing to a topic `t` the node is not
-subscribed to, without `flood_publish`, whatever the scores (`low`) and whatever the random sample
-(`rcpt`), with `C = candidates`:
-1. every earlier fanout peer of `t` stays (in particular the still eligible ones `pre ∩ C`);
-2. every fanout peer afterwards was one before or is a candidate;
-3. the message goes to every earlier fanout peer that is still a candidate;
-4. when `mesh_n` earlier fanout peers are still candidates the set does not change at all;
-5. the fanout sets of the other topics are untouched. -/
-theorem publish_fanout_monotone (s : State) (t now : Nat) (low rcpt : List Nat)
-    (_hflood : s.cfg.flood = false) (_hsub : s.subscribed.contains t = false) :
-    let r := publish s t now low rcpt
-    let C := candidates s t low
-    (∀ p ∈ pre s t, p ∈ pre r.1 t)
-    ∧ (∀ p ∈ pre r.1 t, p ∈ pre s t ∨ p ∈ C)
-    ∧ (∀ rc, r.2 = .rcpt rc → ∀ p ∈ pre s t, p ∈ C → p ∈ rc)
-    ∧ (s.cfg.meshN ≤ ((pre s t).filter (C.contains ·)).length → r.1.fanout = s.fanout)
-    ∧ (∀ t', t' ≠ t → r.1.fanout t' = s.fanout t') := by
-  intro r C
-  simp only [r, publish, publishG, _hflood, _hsub, Bool.false_eq_true, ↓reduceIte]
+/-- the fanout part of `publish` (repaired code), for EVERY state — in particular every state of
+the send queues, which it neither reads nor writes -/
+theorem pubFanout_monotone (s : State) (t now : Nat) (low : List Nat) (fa : Option (List Nat))
+    (s1 : State) (rc : List Nat) (h : pubFanout true s t now low fa = some (s1, rc)) :
+    (∀ p ∈ pre s t, p ∈ pre s1 t)
+    ∧ (∀ p ∈ pre s1 t, p ∈ pre s t ∨ p ∈ candidates s t low)
+    ∧ (∀ p ∈ pre s t, p ∈ candidates s t low → p ∈ rc)
+    ∧ (s.cfg.meshN ≤ ((pre s t).filter ((candidates s t low).contains ·)).length → s1.fanout = s.fanout)
+    ∧ (∀ t', t' ≠ t → s1.fanout t' = s.fanout t')
+    ∧ (∀ p ∈ pre s1 t, p ∉ pre s t →
+        ((pre s t).filter ((candidates s t low).contains ·)).length < s.cfg.meshN ∧ p ∈ pool s t low)
+    ∧ s1.qlen = s.qlen ∧ s1.held = s.held ∧ s1.cfg = s.cfg := by
+  unfold pubFanout at h
+  simp only at h
   by_cases hneed : s.cfg.meshN - (((s.fanout t).getD []).filter (fun x => (candidates s t low).contains x)).length > 0
-  · simp only [hneed, ↓reduceIte]
-    split
-    · -- valid oracle
-      rename_i hv
+  · rw [if_pos hneed] at h
+    split at h
+    · rename_i hv
       simp only [validChoice, Bool.and_eq_true, List.all_eq_true] at hv
       obtain ⟨⟨hsubp, _⟩, _⟩ := hv
-      refine ⟨?_, ?_, ?_, ?_, ?_⟩
+      simp only [↓reduceIte, Option.some.injEq, Prod.mk.injEq] at h
+      obtain ⟨rfl, rfl⟩ := h
+      refine ⟨?_, ?_, ?_, ?_, ?_, ?_, rfl, rfl, rfl⟩
       · intro p hp
         simp only [pre, setF_same, Option.getD_some] at hp ⊢
         exact mem_insAll.2 (Or.inl hp)
       · intro p hp
         simp only [pre, setF_same, Option.getD_some] at hp ⊢
-        rcases mem_insAll.1 hp with h | h
-        · exact Or.inl h
+        rcases mem_insAll.1 hp with h' | h'
+        · exact Or.inl h'
         · right
-          have := hsubp p h
+          have := hsubp p h'
           simp only [List.contains_eq_mem, List.mem_filter, decide_eq_true_eq] at this
           exact this.1
-      · intro rc hrc p hp hpC
-        simp only [PubOut.rcpt.injEq] at hrc
-        subst hrc
+      · intro p hp hpC
         apply mem_insAll.2; left
         apply mem_insAll.2; right
         simp only [pre] at hp
@@ -105,46 +99,144 @@ theorem publish_fanout_monotone (s : State) (t now : Nat) (low rcpt : List Nat)
         exact ⟨hp, hpC⟩
       · intro hle
         exfalso
-        simp only [pre, C] at hle
+        simp only [pre] at hle
         omega
       · intro t' ht'
         simp [setF_other _ _ _ _ ht']
-    · refine ⟨fun p hp => hp, fun p hp => Or.inl hp, ?_, by intros; first | rfl | trivial, by intros; first | rfl | trivial⟩
-      intro rc hrc
-      simp at hrc
-  · simp only [hneed, ↓reduceIte]
-    refine ⟨fun p hp => hp, fun p hp => Or.inl hp, ?_, by intros; first | rfl | trivial, by intros; first | rfl | trivial⟩
-    intro rc hrc p hp hpC
-    simp only [PubOut.rcpt.injEq] at hrc
-    subst hrc
+      · intro p hp hnp
+        simp only [pre, setF_same, Option.getD_some] at hp hnp ⊢
+        rcases mem_insAll.1 hp with h' | h'
+        · exact absurd h' hnp
+        · refine ⟨by omega, ?_⟩
+          have := hsubp p h'
+          simpa [pool] using this
+    · cases h
+  · rw [if_neg hneed] at h
+    simp only [Option.some.injEq, Prod.mk.injEq] at h
+    obtain ⟨rfl, rfl⟩ := h
+    refine ⟨fun p hp => hp, fun p hp => Or.inl hp, ?_, fun _ => rfl, fun _ _ => rfl,
+      fun p hp hnp => absurd hp hnp, rfl, rfl, rfl⟩
+    intro p hp hpC
     apply mem_insAll.2; right
     simp only [pre] at hp
     simp only [List.mem_filter, List.contains_eq_mem, decide_eq_true_eq]
     exact ⟨hp, hpC⟩
 
+/-- **The send loop touches the send queues only**: whatever the queues look like and whether the
+message is accepted by all, some or no recipient (`AllQueuesFull`), `fanout`, `fanout_last_pub`, the
+peer table and the config are exactly what `filter_publish_candidates` left. -/
+theorem pubSend_frame (s1 : State) (rc : List Nat) :
+    (pubSend s1 rc).1.fanout = s1.fanout ∧ (pubSend s1 rc).1.lastPub = s1.lastPub
+    ∧ (pubSend s1 rc).1.peers = s1.peers ∧ (pubSend s1 rc).1.held = s1.held ∧ (pubSend s1 rc).1.cfg = s1.cfg := by
+  unfold pubSend
+  split <;> exact ⟨rfl, rfl, rfl, rfl, rfl⟩
+
+/-- **Publish keeps and only adds** (repaired code). Publishing to a topic `t` the node is not
+subscribed to, without `flood_publish`, from ANY state — any occupancy of the send queues, any set
+of backlogged peers, any queue capacity — whatever the scores (`low`), whatever the random sample
+(`fa`) and whatever the outcome (`Ok`, `AllQueuesFull`, `NoPeersSubscribedToTopic`), with
+`C = candidates`:
+1. `fanout_before ⊆ fanout_after`: every earlier fanout peer of `t` stays;
+2. every fanout peer afterwards was one before or is a candidate;
+3. every earlier fanout peer that is still a candidate is a recipient (`send_message` is attempted);
+4. when `mesh_n` earlier fanout peers are still candidates the set does not change at all;
+5. the fanout sets of the other topics are untouched. -/
+theorem publish_fanout_monotone (s : State) (t now : Nat) (low : List Nat) (fa : Option (List Nat))
+    (_hflood : s.cfg.flood = false) (_hsub : s.subscribed.contains t = false) :
+    let r := publish s t now low fa
+    let C := candidates s t low
+    (∀ p ∈ pre s t, p ∈ pre r.1 t)
+    ∧ (∀ p ∈ pre r.1 t, p ∈ pre s t ∨ p ∈ C)
+    ∧ (∀ rc d, r.2 = .sent rc d → ∀ p ∈ pre s t, p ∈ C → p ∈ rc)
+    ∧ (s.cfg.meshN ≤ ((pre s t).filter (C.contains ·)).length → r.1.fanout = s.fanout)
+    ∧ (∀ t', t' ≠ t → r.1.fanout t' = s.fanout t') := by
+  intro r C
+  simp only [r, publish, publishG, _hflood, _hsub, Bool.false_eq_true, ↓reduceIte]
+  cases hpf : pubFanout true s t now low fa with
+  | none =>
+    simp only
+    refine ⟨fun p hp => hp, fun p hp => Or.inl hp, ?_, by intros; first | rfl | trivial, by intros; first | rfl | trivial⟩
+    intro rc d h; cases h
+  | some x =>
+    obtain ⟨s1, rc⟩ := x
+    simp only
+    obtain ⟨m1, m2, m3, m4, m5, _, _, _, _⟩ := pubFanout_monotone s t now low fa s1 rc hpf
+    obtain ⟨f1, _, _, _, _⟩ := pubSend_frame s1 rc
+    have hpre : pre (pubSend s1 rc).1 t = pre s1 t := by simp only [pre, f1]
+    refine ⟨fun p hp => by rw [hpre]; exact m1 p hp, fun p hp => m2 p (by rw [← hpre]; exact hp), ?_,
+      fun hle => by rw [f1]; exact m4 hle, fun t' ht' => by rw [f1]; exact m5 t' ht'⟩
+    intro rc' d hout p hp hpC
+    have hin := m3 p hp hpC
+    unfold pubSend at hout
+    split at hout
+    · rename_i hemp
+      rw [List.isEmpty_iff.1 hemp] at hin
+      simp at hin
+    · simp only [PubOut.sent.injEq] at hout
+      rw [← hout.1]; exact hin
+
+/-- the monotonicity clause on its own: for every publish on an unsubscribed topic and for every
+queue state, `fanout_before ⊆ fanout_after` -/
+theorem publish_keeps_fanout_any_queues (s : State) (t now : Nat) (low : List Nat) (fa : Option (List Nat))
+    (hflood : s.cfg.flood = false) (hsub : s.subscribed.contains t = false) :
+    ∀ p ∈ pre s t, p ∈ pre (publish s t now low fa).1 t :=
+  (publish_fanout_monotone s t now low fa hflood hsub).1
+
 /-- New fanout peers are taken only when fewer than `mesh_n` earlier fanout peers are still
-candidates, and then exactly `min (mesh_n - |pre ∩ C|) |pool|` of them, all from the pool of
-candidates that are not recipients already. -/
-theorem publish_adds_only_when_needed (s : State) (t now : Nat) (low rcpt : List Nat)
+candidates, and then all from the pool of candidates that are not recipients already. -/
+theorem publish_adds_only_when_needed (s : State) (t now : Nat) (low : List Nat) (fa : Option (List Nat))
     (_hflood : s.cfg.flood = false) (_hsub : s.subscribed.contains t = false)
-    (p : Nat) (hnew : p ∈ pre (publish s t now low rcpt).1 t) (hold : p ∉ pre s t) :
+    (p : Nat) (hnew : p ∈ pre (publish s t now low fa).1 t) (hold : p ∉ pre s t) :
     ((pre s t).filter ((candidates s t low).contains ·)).length < s.cfg.meshN ∧ p ∈ pool s t low := by
   simp only [publish, publishG, _hflood, _hsub, Bool.false_eq_true, ↓reduceIte] at hnew
-  by_cases hneed : s.cfg.meshN - (((s.fanout t).getD []).filter (fun x => (candidates s t low).contains x)).length > 0
-  · simp only [hneed, ↓reduceIte] at hnew
-    split at hnew
-    · rename_i hv
-      simp only [validChoice, Bool.and_eq_true, List.all_eq_true] at hv
-      obtain ⟨⟨hsubp, _⟩, _⟩ := hv
-      simp only [pre, setF_same, Option.getD_some] at hnew
-      rcases mem_insAll.1 hnew with h | h
-      · exact absurd h hold
-      · refine ⟨by simp only [pre]; omega, ?_⟩
-        have := hsubp p h
-        simpa [pool] using this
-    · exact absurd hnew hold
-  · simp only [hneed, ↓reduceIte] at hnew
-    exact absurd hnew hold
+  cases hpf : pubFanout true s t now low fa with
+  | none => simp only [hpf] at hnew; exact absurd hnew hold
+  | some x =>
+    obtain ⟨s1, rc⟩ := x
+    simp only [hpf] at hnew
+    obtain ⟨_, _, _, _, _, m6, _, _, _⟩ := pubFanout_monotone s t now low fa s1 rc hpf
+    obtain ⟨f1, _, _, _, _⟩ := pubSend_frame s1 rc
+    have hpre : pre (pubSend s1 rc).1 t = pre s1 t := by simp only [pre, f1]
+    rw [hpre] at hnew
+    exact m6 p hnew hold
+
+/-! ## the send queues -/
+
+theorem sendLoop_mono (cap : Nat) : ∀ (rc : List Nat) (q : Nat → Nat) (d : List Nat) (x : Nat),
+    x ∈ d → x ∈ (sendLoop cap rc q d).2 := by
+  intro rc
+  induction rc with
+  | nil => intro q d x hx; exact hx
+  | cons r rest ih =>
+    intro q d x hx
+    simp only [sendLoop]
+    split
+    · exact ih _ _ x (List.mem_append.2 (Or.inl hx))
+    · exact ih _ _ x hx
+
+/-- a recipient whose queue has room gets the message -/
+theorem sendLoop_delivers (cap : Nat) : ∀ (rc : List Nat) (q : Nat → Nat) (d : List Nat) (x : Nat),
+    x ∈ rc → q x < cap → x ∈ (sendLoop cap rc q d).2 := by
+  intro rc
+  induction rc with
+  | nil => intro q d x hx; simp at hx
+  | cons r rest ih =>
+    intro q d x hx hq
+    simp only [sendLoop]
+    by_cases hxr : x = r
+    · subst hxr
+      rw [if_pos hq]
+      exact sendLoop_mono cap rest _ _ x (by simp)
+    · have hx' : x ∈ rest := by
+        rcases List.mem_cons.1 hx with h | h
+        · exact absurd h hxr
+        · exact h
+      split
+      · exact ih _ _ x hx' (by simp [hxr, hq])
+      · exact ih _ _ x hx' hq
+
+/-- the harness keeps the queue of every peer it is not holding empty -/
+def QInv (s : State) : Prop := ∀ p, p ∉ s.held → s.qlen p = 0
 
 /-! ## between heartbeats -/
 
@@ -268,7 +360,7 @@ theorem until_heartbeat (s : State) (o : Op) (t p : Nat) (hp : p ∈ pre s t) :
           exact hp
         · exact hp
   | unsubscribe t' => left; simpa [step, unsubscribe, pre] using hp
-  | publish t' now low rcpt =>
+  | publish t' now low fa =>
     left
     simp only [step]
     cases hfl' : s.cfg.flood with
@@ -277,13 +369,15 @@ theorem until_heartbeat (s : State) (o : Op) (t p : Nat) (hp : p ∈ pre s t) :
       cases hsub' : s.subscribed.contains t' with
       | true => simp only [publish, publishG, hfl', hsub', Bool.false_eq_true, ↓reduceIte]; exact hp
       | false =>
-        have hm := publish_fanout_monotone s t' now low rcpt hfl' hsub'
+        have hm := publish_fanout_monotone s t' now low fa hfl' hsub'
         by_cases ht : t = t'
         · subst ht; exact hm.1 p hp
         · have := hm.2.2.2.2 t ht
           simp only [pre] at hp ⊢
           rw [this]; exact hp
   | heartbeat now low post => right; rfl
+  | hold q => left; exact hp
+  | release q => left; exact hp
 
 /-- **Between heartbeats**, trace form: along any op sequence none of whose ops is a heartbeat, a
 disconnect of `p`, an unsubscription of `p` from `t` or a local `subscribe t`, a fanout peer `p`
@@ -342,31 +436,57 @@ theorem hbTopic_keeps (s : State) (t : Nat) (low l post l' : List Nat) (h : hbTo
 
 /-! ## the Spec accepts the model -/
 
-/-- the publish clauses of the Spec hold on the model's own output -/
-theorem spec_accepts_model_publish (s : State) (t now : Nat) (low rcpt : List Nat)
-    (hflood : s.cfg.flood = false) (hsub : s.subscribed.contains t = false) (rc : List Nat)
-    (hout : (publish s t now low rcpt).2 = .rcpt rc) :
-    specPublish s.cfg.meshN (candidates s t low) (pre s t) (pre (publish s t now low rcpt).1 t) rc = none := by
-  obtain ⟨h1, h2, h3, h4, _⟩ := publish_fanout_monotone s t now low rcpt hflood hsub
-  have h3' := h3 rc hout
+/-- the publish clauses of the Spec hold on the model's own output, from every state in which the
+queues of the peers the harness is not holding are empty (`QInv`, an invariant: `qinv_step`) -/
+theorem spec_accepts_model_publish (s : State) (t now : Nat) (low : List Nat) (fa : Option (List Nat))
+    (hflood : s.cfg.flood = false) (hsub : s.subscribed.contains t = false) (hq : QInv s) (rc d : List Nat)
+    (hout : (publish s t now low fa).2 = .sent rc d) :
+    specPublish s.cfg.meshN s.cfg.cap (candidates s t low) (pre s t) (pre (publish s t now low fa).1 t)
+      (d.filter (fun p => !s.held.contains p)) s.held = none := by
+  obtain ⟨h1, h2, h3, h4, _⟩ := publish_fanout_monotone s t now low fa hflood hsub
+  have h3' := h3 rc d hout
+  -- delivery to the peers whose queue is empty
+  have hdel : 0 < s.cfg.cap → ∀ x ∈ rc, x ∉ s.held → x ∈ d := by
+    intro hcap x hx hxh
+    simp only [publish, publishG, hflood, hsub, Bool.false_eq_true, ↓reduceIte] at hout
+    cases hpf : pubFanout true s t now low fa with
+    | none => simp [hpf] at hout
+    | some y =>
+      obtain ⟨s1, rc1⟩ := y
+      simp only [hpf] at hout
+      obtain ⟨_, _, _, _, _, _, q1, _, c1⟩ := pubFanout_monotone s t now low fa s1 rc1 hpf
+      unfold pubSend at hout
+      split at hout
+      · simp only [PubOut.sent.injEq] at hout
+        rw [← hout.1] at hx; simp at hx
+      · simp only [PubOut.sent.injEq] at hout
+        rw [← hout.2]
+        rw [← hout.1] at hx
+        apply sendLoop_delivers _ _ _ _ x hx
+        rw [q1, c1, hq x hxh]; exact hcap
   unfold specPublish
-  have e1 : subset ((pre s t).filter ((candidates s t low).contains ·)) (pre (publish s t now low rcpt).1 t) = true := by
-    apply subset_iff.2
-    intro x hx
-    exact h1 x (List.mem_filter.1 hx).1
-  have e2 : subset (pre (publish s t now low rcpt).1 t) (pre s t ++ candidates s t low) = true := by
+  have e1 : subset (pre s t) (pre (publish s t now low fa).1 t) = true := subset_iff.2 h1
+  have e2 : subset (pre (publish s t now low fa).1 t) (pre s t ++ candidates s t low) = true := by
     apply subset_iff.2
     intro x hx
     exact List.mem_append.2 (h2 x hx)
-  have e3 : subset ((pre s t).filter ((candidates s t low).contains ·)) rc = true := by
-    apply subset_iff.2
-    intro x hx
-    have := List.mem_filter.1 hx
-    exact h3' x this.1 (by simpa using this.2)
+  have e3 : (decide (s.cfg.cap > 0) && !subset (((pre s t).filter ((candidates s t low).contains ·)).filter
+      (fun p => !s.held.contains p)) (d.filter (fun p => !s.held.contains p))) = false := by
+    by_cases hcap : s.cfg.cap > 0
+    · have : subset (((pre s t).filter ((candidates s t low).contains ·)).filter (fun p => !s.held.contains p))
+          (d.filter (fun p => !s.held.contains p)) = true := by
+        apply subset_iff.2
+        intro x hx
+        obtain ⟨hx1, hx2⟩ := List.mem_filter.1 hx
+        obtain ⟨hx3, hx4⟩ := List.mem_filter.1 hx1
+        have hxh : x ∉ s.held := by simpa using hx2
+        exact List.mem_filter.2 ⟨hdel hcap x (h3' x hx3 (by simpa using hx4)) hxh, hx2⟩
+      rw [this]; simp
+    · simp [hcap]
   simp only [e1, e2, e3, Bool.not_true, Bool.false_eq_true, ↓reduceIte]
   by_cases hle : s.cfg.meshN ≤ ((pre s t).filter ((candidates s t low).contains ·)).length
   · have := h4 hle
-    have e4 : subset (pre (publish s t now low rcpt).1 t) (pre s t) = true := by
+    have e4 : subset (pre (publish s t now low fa).1 t) (pre s t) = true := by
       apply subset_iff.2
       intro x hx
       simpa [pre, this] using hx
@@ -374,6 +494,103 @@ theorem spec_accepts_model_publish (s : State) (t now : Nat) (low rcpt : List Na
   · have hd : decide (s.cfg.meshN ≤ ((pre s t).filter ((candidates s t low).contains ·)).length) = false := by
       simpa using hle
     simp only [hd, Bool.false_and, Bool.false_eq_true, ↓reduceIte]
+
+theorem foldl_applySub_queues (p : Nat) : ∀ (fl : List (Bool × Nat)) (s : State),
+    (fl.foldl (fun s e => applySub s p e) s).qlen = s.qlen ∧ (fl.foldl (fun s e => applySub s p e) s).held = s.held := by
+  intro fl
+  induction fl with
+  | nil => intro s; exact ⟨rfl, rfl⟩
+  | cons e es ih =>
+    intro s
+    simp only [List.foldl_cons]
+    have h0 : (applySub s p e).qlen = s.qlen ∧ (applySub s p e).held = s.held := by
+      unfold applySub setTopics; split <;> exact ⟨rfl, rfl⟩
+    obtain ⟨a, b⟩ := ih (applySub s p e)
+    exact ⟨a.trans h0.1, b.trans h0.2⟩
+
+theorem recvSubs_queues (s : State) (p : Nat) (l : List (Bool × Nat)) :
+    (recvSubs s p l).qlen = s.qlen ∧ (recvSubs s p l).held = s.held := by
+  unfold recvSubs
+  split
+  · exact foldl_applySub_queues p _ s
+  · exact ⟨rfl, rfl⟩
+
+/-- `QInv` is an invariant of the op machine -/
+theorem qinv_step (s : State) (o : Op) (h : QInv s) : QInv (step s o) := by
+  cases o with
+  | connect p g =>
+    simp only [step, connect]
+    split
+    · exact h
+    · intro q hq; simp only; split
+      · rfl
+      · exact h q hq
+  | disconnect p =>
+    simp only [step, disconnect]
+    split
+    · exact h
+    · intro q hq; simp only; split
+      · rfl
+      · exact h q hq
+  | explicit p => exact h
+  | subs p l =>
+    obtain ⟨a, b⟩ := recvSubs_queues s p l
+    intro q hq
+    simp only [step] at hq ⊢
+    rw [a]; rw [b] at hq; exact h q hq
+  | subscribe t =>
+    simp only [step, subscribe]
+    split
+    · exact h
+    · split <;> exact h
+  | unsubscribe t => exact h
+  | publish t now low fa =>
+    simp only [step, publish, publishG]
+    split
+    · intro q _; rfl
+    · split
+      · intro q _; rfl
+      · cases hpf : pubFanout true s t now low fa with
+        | none => exact h
+        | some y =>
+          obtain ⟨s1, rc⟩ := y
+          simp only
+          obtain ⟨_, _, _, _, _, _, q1, hh1, _⟩ := pubFanout_monotone s t now low fa s1 rc hpf
+          unfold pubSend
+          split
+          · intro q hq; simp only at hq ⊢; rw [q1]; rw [hh1] at hq; exact h q hq
+          · intro q hq
+            have hq' : q ∉ s1.held := hq
+            show (if s1.held.contains q = true then (sendLoop s1.cfg.cap rc s1.qlen []).1 q else 0) = 0
+            rw [if_neg (by simpa using hq')]
+  | heartbeat now low post =>
+    simp only [step]
+    cases hh : heartbeat s now low topicUniverse post with
+    | none => exact h
+    | some s' =>
+      simp only [Option.getD_some]
+      unfold heartbeat at hh
+      simp only at hh
+      split at hh
+      · simp only [Option.some.injEq] at hh
+        subst hh
+        exact h
+      · cases hh
+  | hold p =>
+    intro q hq
+    simp only [step] at hq ⊢
+    exact h q (fun hm => hq (mem_ins.2 (Or.inl hm)))
+  | release p =>
+    intro q hq
+    simp only [step] at hq ⊢
+    split
+    · rfl
+    · rename_i hne
+      apply h q
+      intro hm
+      exact hq (List.mem_filter.2 ⟨hm, by simpa using hne⟩)
+
+theorem qinv_init (c : Cfg) : QInv (init c) := fun _ _ => rfl
 
 /-- the keep clause of the Spec holds on every model step -/
 theorem spec_accepts_model_keep (s : State) (o : Op) (t : Nat) :
@@ -389,38 +606,68 @@ theorem spec_accepts_model_keep (s : State) (o : Op) (t : Nat) :
 
 /-- peers A = 0 and B = 1, both gossipsub and subscribed to topic 0; fanout(0) = {A}; mesh_n = 2 -/
 def cexState : State :=
-  { cfg := { meshN := 2, ttl := 60000000000, flood := false }
+  { cfg := { meshN := 2, ttl := 60000000000, flood := false, cap := 5000 }
     peers := [{ id := 0, gossip := true, topics := [0] }, { id := 1, gossip := true, topics := [0] }]
     explicit := [], subscribed := []
     fanout := fun t => if t = 0 then some [0] else none
-    lastPub := fun t => if t = 0 then some 0 else none }
+    lastPub := fun t => if t = 0 then some 0 else none
+    qlen := fun _ => 0, held := [] }
 
 /-- **Counterexample for the tree before the repair** (`fanout.insert(topic, new_peers)`):
 fanout {A}, candidates {A, B}, `mesh_n = 2`. The message goes to A and B, but afterwards the
 fanout set is {B}: A, still eligible, has been dropped (DESIGN §8 row 11; confirmed on the
 implementation, `corpus/C35/fanout-replaced.case`). The repaired code yields {A, B}. -/
 theorem fanout_replaced_buggy_counterexample :
-    (publishBuggy cexState 0 1 [] [0, 1]).2 = .rcpt [0, 1]
-    ∧ (publishBuggy cexState 0 1 [] [0, 1]).1.fanout 0 = some [1]
-    ∧ (publish cexState 0 1 [] [0, 1]).1.fanout 0 = some [0, 1]
-    ∧ specPublish 2 (candidates cexState 0 []) [0] [1] [0, 1] = some "fanout_dropped" := by
+    (publishBuggy cexState 0 1 [] (some [1])).2 = .sent [0, 1] [0, 1]
+    ∧ (publishBuggy cexState 0 1 [] (some [1])).1.fanout 0 = some [1]
+    ∧ (publish cexState 0 1 [] (some [0, 1])).1.fanout 0 = some [0, 1]
+    ∧ specPublish 2 5000 (candidates cexState 0 []) [0] [1] [0, 1] [] = some "fanout_dropped" := by
   decide
 
 /-- … and with A as the only candidate the pre-repair code empties the set. -/
 theorem fanout_emptied_buggy_counterexample :
     let s := { cexState with peers := [{ id := 0, gossip := true, topics := [0] }] }
-    (publishBuggy s 0 1 [] [0]).1.fanout 0 = some []
-    ∧ (publish s 0 1 [] [0]).1.fanout 0 = some [0] := by
+    (publishBuggy s 0 1 [] (some [])).1.fanout 0 = some []
+    ∧ (publish s 0 1 [] (some [0])).1.fanout 0 = some [0] := by
+  decide
+
+/-- fanout {A, B}, queue capacity 1, A backlogged with a full queue -/
+def fullState : State :=
+  { cexState with
+    cfg := { meshN := 2, ttl := 60000000000, flood := false, cap := 1 }
+    fanout := fun t => if t = 0 then some [0, 1] else none
+    qlen := fun p => if p = 0 then 1 else 0, held := [0] }
+
+/-- **Full send queues** (the situation of `mutations/C35/seed-queue-full-removes-fanout-peer.diff`):
+A's queue is full, B accepts — `publish` returns `Ok`, A is a recipient whose `send_message` fails,
+and A stays in the fanout. With B backlogged too every send fails (`AllQueuesFull(2)`), and the
+fanout is still {A, B}. A publish that removed A would fail the Spec (`fanout_dropped`). -/
+theorem queue_full_keeps_fanout_example :
+    (publish fullState 0 1 [] (some [0, 1])).2 = .sent [0, 1] [1]
+    ∧ (publish fullState 0 1 [] (some [0, 1])).1.fanout 0 = some [0, 1]
+    ∧ (publish { fullState with qlen := fun _ => 1, held := [0, 1] } 0 1 [] (some [0, 1])).2 = .sent [0, 1] []
+    ∧ resultOf [0, 1] [] = "full:2"
+    ∧ (publish { fullState with qlen := fun _ => 1, held := [0, 1] } 0 1 [] (some [0, 1])).1.fanout 0 = some [0, 1]
+    ∧ specPublish 2 1 (candidates fullState 0 []) [0, 1] [1] [1] [0] = some "fanout_dropped" := by
   decide
 
 /-! ## non-vacuity -/
 
 example : cexState.cfg.flood = false ∧ cexState.subscribed.contains 0 = false := by decide
 example : validChoice [1] (pool cexState 0 []) 1 = true := by decide
+example : QInv fullState := by
+  intro p hp
+  have : p ≠ 0 := by rintro rfl; exact hp (by decide)
+  simp [fullState, this]
 
 end C35
 
 #print axioms C35.publish_fanout_monotone
+#print axioms C35.publish_keeps_fanout_any_queues
+#print axioms C35.pubSend_frame
+#print axioms C35.sendLoop_delivers
+#print axioms C35.qinv_step
+#print axioms C35.queue_full_keeps_fanout_example
 #print axioms C35.publish_adds_only_when_needed
 #print axioms C35.until_heartbeat
 #print axioms C35.fanout_persist
